@@ -157,6 +157,11 @@ pub fn exec(f: &[&str]) -> Option<String> {
                 Err(_) => "not-accepted".into(),
             }
         }
+        // unterminated quotes, missing braces …: an error, never an answer
+        ["kpreject", h] => match parse_key_paths(&unhex(h)?) {
+            Ok(kp) => format!("MISMATCH accepted as {}", keypaths(&kp.paths)),
+            Err(_) => "ok".into(),
+        },
         ["kproundtrip", h] => {
             let b = unhex(h)?;
             match parse_key_paths(&b) {
